@@ -7,6 +7,7 @@ oracle checks the clauses of C03 on the implementation alone.
 """
 from __future__ import annotations
 
+import itertools
 import json
 import random
 import sys
@@ -30,7 +31,7 @@ def gen_case(rng: random.Random, i: int) -> dict:
     prog = S.gen_program(rng, clock, p_illegal=0.05, p_cancel=0.10)
     init = S.gen_repl(rng, clock)
     start, end = init[1], init[3]
-    with_stop = (i % 60 == 7)          # stop() from a handler costs 1 s wall each
+    with_stop = (i % 50 == 7)          # stop() from a handler costs 1 s wall each: few of them
     if with_stop:
         hs = [h for h in range(1, len(prog)) if prog[h]]
         if hs:
@@ -60,11 +61,53 @@ def gen_case(rng: random.Random, i: int) -> dict:
     return {"clock": clock, "strategy": "pause", "prog": prog, "cmds": cmds}
 
 
+def small_prog(u):
+    """ties at 2u (priorities 5 / 7), zero-delay child, self-rescheduling handler, an event exactly at the end"""
+    return [[["sched", ["abs", 2 * u], 5, 1], ["sched", ["abs", 2 * u], 7, 2], ["sched", ["rel", 4 * u], 5, 3],
+             ["sched", ["abs", 12 * u], 5, 2]],
+            [["sched", ["now"], 5, 2], ["sched", ["rel", u], 3, 2], ["cancel", 3]],
+            [],
+            [["sched", ["rel", 3 * u], 5, 3]]]
+
+
+def cut_alphabet(u):
+    al = [["step"], ["start"]]
+    for t in (0, u, 2 * u, 3 * u, 4 * u, 7 * u, 12 * u, 14 * u):
+        al.append(["runupto", t])
+        al.append(["runuptoincl", t])
+    return al
+
+
+def extra_cases(tier):
+    """bounded-exhaustive segmentations of one small replication: every sequence of cuts up to a length"""
+    out = []
+    rng = random.Random(C.seed() * 7919 + 3)
+    for clock in (["float"] if tier == "quick" else ["float", "int", "durmin"]):
+        u = 60 if clock == "durmin" else S.unit_of(clock)
+        prog = small_prog(u)
+        al = cut_alphabet(u)
+        init = ["init", 0, u, 12 * u]
+        seqs = [list(q) for n in (1, 2) for q in itertools.product(al, repeat=n)]
+        triples = [list(q) for q in itertools.product(al, repeat=3)]
+        seqs += triples if tier != "quick" else rng.sample(triples, 400)
+        for q in seqs:
+            out.append({"clock": clock, "strategy": "pause", "prog": prog, "cmds": [init] + [list(c) for c in q] + [["start"]]})
+    return out
+
+
 def prepare(cases, obs):
-    """uninterrupted runs of the same programs (stop requests removed)"""
-    base = [{"clock": c["clock"], "strategy": c["strategy"], "prog": strip_stops(c["prog"]),
-             "cmds": [c["cmds"][0], ["start"]]} for c in cases]
-    return S.run_impl(base)
+    """uninterrupted runs of the same programs (stop requests removed); identical base runs are run once"""
+    keys, uniq, base = [], {}, []
+    for c in cases:
+        b = {"clock": c["clock"], "strategy": c["strategy"], "prog": strip_stops(c["prog"]),
+             "cmds": [c["cmds"][0], ["start"]]}
+        k = json.dumps(b, sort_keys=True)
+        if k not in uniq:
+            uniq[k] = len(base)
+            base.append(b)
+        keys.append(uniq[k])
+    res = S.run_impl(base)
+    return [res[j] for j in keys]
 
 
 def oracle(case, obs, ctx, idx):
@@ -143,7 +186,10 @@ def oracle(case, obs, ctx, idx):
     return None, facts
 
 
-RULE = ("generated programs x random segmentations of the replication into run_up_to / run_up_to_including / step pieces "
+RULE = ("bounded-exhaustive: every sequence of <= 2 cuts (quick: + 400 sampled triples; thorough: all triples, 3 clocks) over "
+        "{step, start, run_up_to t, run_up_to_including t : t in 8 points before / at / between event times, at the end, beyond it} "
+        "on one small replication with a tie, a zero-delay child and an event exactly at the end; plus "
+        "generated programs x random segmentations of the replication into run_up_to / run_up_to_including / step pieces "
         "(cuts before, at and between event times, at the end, beyond the end, in the past) and stop()-from-a-handler followed "
         "by start; each also run uninterrupted; non-trivial = distinct case executing >= 3 events with a bounded cut before the "
         "end, a step, or a stop/start pause")
@@ -151,7 +197,8 @@ RULE = ("generated programs x random segmentations of the replication into run_u
 
 def main(tier: str) -> int:
     return c02.main(tier, pid=PID, gen=gen_case, oracle_fn=oracle, prepare=prepare, rule=RULE,
-                    n_quick=1200, n_thorough=16000)
+                    n_quick=1200, n_thorough=12000, extra_cases=extra_cases,
+                    targets=["Sim/Case.vo", "Sim/Horizon.vo", "Props/C03.vo"])
 
 
 if __name__ == "__main__":
